@@ -480,9 +480,9 @@ def run(ctx):
     # insertion order: reverse iteration + emplace_back, in both the constructor and addDropInConfig
     for q in ("Oomd::Engine::Engine::Engine", "Oomd::Engine::Engine::addDropInConfig"):
         f = ctx.fn1(q)
-        pushes = [i for i in f.calls("emplace_back") if "prekill_hooks_in_reverse_order_" in f.text(f.nodes[i].get("recv", -1))]
+        pushes = [i for i in f.calls("emplace_back", "push_back") if "prekill_hooks_in_reverse_order_" in f.text(f.nodes[i].get("recv", -1))]
         ctx.count("hook_insert_sites", len(pushes))
-        other = [i for i in f.calls("push_front", "emplace_front", "insert", "push_back", "emplace")
+        other = [i for i in f.calls("push_front", "emplace_front", "insert", "emplace")
                  if "prekill_hooks_in_reverse_order_" in f.text(f.nodes[i].get("recv", -1)) and i not in pushes]
         okq = len(pushes) == 1 and not other
         if okq:
